@@ -214,6 +214,19 @@ def r4_fit_iff_no_hash(ctx):
                         "self.fit_properties":
                     col_stores.append(st)
     ctx.floor("result stores in fit_model", len(col_stores), 4)
+    for node in col_stores:
+        conds = conditions_at(node)
+        extra = [a for a in conds if a.text not in (
+            "'hash' in self.fit_properties",
+            "'hash' in self._fit_properties")
+            and isinstance(a.origin, (ast.If, ast.IfExp))]
+        ctx.check(not extra, node,
+                  f"{norm(node)[:50]} stored for every new fit",
+                  "after a new fit a result column / the fit properties are "
+                  "only written when "
+                  + " and ".join(repr(a) for a in extra)
+                  + ": otherwise the column keeps the values of the "
+                  "previous fit while the stored settings are the new ones")
     for node in guarded + col_stores:
         conds = conditions_at(node)
         ok = any((not a.pol) and a.text in (
@@ -515,6 +528,17 @@ def r7_no_edit_behind_hash(ctx):
         ctx.analysed(f)
 
 
+def r8_settings_by_value(ctx):
+    fn = ctx.repo.mod("fit").func("FitProperties.__setitem__")
+    ctx.check(fitrules.fp_stores_by_value(ctx.repo), fn,
+              "FitProperties.__setitem__ deep-copies settings",
+              "settings are stored by reference or through a shallow copy "
+              "only: editing a (nested) object that was passed before - "
+              "e.g. an inner dict of the preprocessing options - changes "
+              "the stored settings while hash and results stay, and passing "
+              "it again compares equal, so nothing is recomputed")
+
+
 RULES = [
     ("C03-R1", "a changed setting drops results on every storing path",
      r1_invalidate_on_change),
@@ -529,4 +553,5 @@ RULES = [
     ("C03-R6", "fitter restores its scratch range/flags", r6_fitter_restores),
     ("C03-R7", "stored settings objects are never edited in place",
      r7_no_edit_behind_hash),
+    ("C03-R8", "settings are stored by (deep) value", r8_settings_by_value),
 ]
